@@ -54,16 +54,25 @@ func (node *tagIncludeNode) Execute(ctx *ExecutionContext, writer TemplateWriter
 		}
 		err2 = includedTpl.ExecuteWriter(includeCtx, writer)
 		if err2 != nil {
-			return err2.(*Error)
+			return includeError(ctx, err2)
 		}
 		return nil
 	}
 	// Template is already parsed with static filename
 	err := node.tpl.ExecuteWriter(includeCtx, writer)
 	if err != nil {
-		return err.(*Error)
+		return includeError(ctx, err)
 	}
 	return nil
+}
+
+// includeError passes on the error of an included template's execution. It is not always
+// a *Error: ExecuteWriter also returns whatever the writer it was given reports.
+func includeError(ctx *ExecutionContext, err error) *Error {
+	if perr, ok := err.(*Error); ok {
+		return perr
+	}
+	return ctx.OrigError(err, nil)
 }
 
 type tagIncludeEmptyNode struct{}
